@@ -186,33 +186,59 @@ def conjuncts(e):
 def const_table(fn, prog, max_paths=200):
     """For a loop-free function that matches on enum values and returns constants:
     list of (conditions, value) per path; conditions = list of (described place, variant-or-int label);
-    value = the constant object assigned to the return place (or a description)."""
+    value = the constant object assigned to the return place (or a description). Assignments are tracked
+    per path, so a temporary written in every arm and returned after the join resolves to that arm's value."""
     rows = []
     count = [0]
 
-    def walk(bb, conds, ret, visiting):
+    def resolve(r, env, depth=0):
+        """rvalue -> constant dict | {'desc':..}"""
+        if depth > 8:
+            return {"desc": "?deep"}
+        k = r[0]
+        if k == "callret":
+            return {"desc": "%s(%s)" % (r[1].name, ",".join(describe_deep(fn, a, 2) for a in r[1].args)), "call": r[1]}
+        op = None
+        if k == "use":
+            op = r[1]
+        elif k == "cast":
+            op = r[2]
+        elif k == "ref":
+            op = ["c", r[2]]
+        elif k == "cfd":
+            op = ["c", r[1]]
+        if op is not None:
+            if op[0] == "k":
+                return op[1]
+            if op[0] in ("c", "m"):
+                l = op[1][0]
+                if l in env:
+                    return resolve(env[l], env, depth + 1)
+                st = fn.origin(op)
+                if st and st[-1][0] == "const":
+                    return st[-1][1]
+                return {"desc": describe_deep(fn, op)}
+        if k == "agg":
+            parts = []
+            for o in r[2]:
+                v = resolve(["use", o], env, depth + 1)
+                parts.append(v.get("s", v.get("v", v.get("desc", "?"))) if isinstance(v, dict) else str(v))
+            return {"desc": "%s{%s}" % (r[1].get("variant") or r[1].get("k"), ",".join(str(x) for x in parts)), "agg": r}
+        return {"desc": str(k)}
+
+    def walk(bb, conds, env, visiting):
         count[0] += 1
         if count[0] > max_paths * 20 or bb in visiting:
             raise TooComplex("loop or too many paths")
         blk = fn.blocks[bb]
+        env = dict(env)
         for st in blk["st"]:
-            if st["k"] == "=" and st["p"] == [0, []]:
-                ret = st["r"]
+            if st["k"] == "=" and not st["p"][1]:
+                env[st["p"][0]] = st["r"]
         t = blk["t"]
         k = t["k"]
         if k == "return":
-            val = None
-            if ret is not None:
-                if ret[0] == "use" and ret[1][0] == "k":
-                    val = ret[1][1]
-                elif ret[0] == "use":
-                    st = fn.origin(ret[1])
-                    val = st[-1][1] if st and st[-1][0] == "const" else {"desc": describe_deep(fn, ret[1])}
-                elif ret[0] == "agg":
-                    val = {"desc": describe_deep(fn, ["c", [0, []]]) if False else "%s{%s}" % (ret[1].get("variant") or ret[1].get("k"), ",".join(describe_deep(fn, o) for o in ret[2])), "agg": ret}
-                else:
-                    val = {"desc": str(ret[0])}
-            rows.append((conds, val))
+            rows.append((conds, resolve(env[0], env) if 0 in env else None))
             return
         if k == "switch":
             info = fn.switch_info(bb)
@@ -221,32 +247,31 @@ def const_table(fn, prog, max_paths=200):
                 names = prog.variant_names(info["ty"])
                 subj = describe_deep(fn, info["place"])
                 for v, tb in t["targets"]:
-                    walk(tb, conds + [(subj, names.get(int(v), int(v)))], ret, visiting | {bb})
+                    walk(tb, conds + [(subj, names.get(int(v), int(v)))], env, visiting | {bb})
                 rest = [names[x] for x in names if x not in listed]
                 if rest or not names:
-                    walk(t["otherwise"], conds + [(subj, tuple(rest) if len(rest) != 1 else rest[0])], ret, visiting | {bb})
+                    walk(t["otherwise"], conds + [(subj, tuple(rest) if len(rest) != 1 else rest[0])], env, visiting | {bb})
             else:
                 subj = describe_deep(fn, t["discr"])
                 for v, tb in t["targets"]:
-                    walk(tb, conds + [(subj, int(v))], ret, visiting | {bb})
-                walk(t["otherwise"], conds + [(subj, "otherwise")], ret, visiting | {bb})
+                    walk(tb, conds + [(subj, int(v))], env, visiting | {bb})
+                walk(t["otherwise"], conds + [(subj, "otherwise")], env, visiting | {bb})
             return
         if k == "call":
-            if t["dest"] == [0, []]:
+            if not t["dest"][1]:
                 from .mir import Call
-                c = Call(fn, bb, t, False)
-                ret = ["callret", c]
+                env[t["dest"][0]] = ["callret", Call(fn, bb, t, False)]
             if t.get("target") is None:
                 return
-            walk(t["target"], conds, ret, visiting | {bb})
+            walk(t["target"], conds, env, visiting | {bb})
             return
         succ = fn.succ(bb)
         if len(succ) == 1:
-            walk(succ[0][0], conds, ret, visiting | {bb})
+            walk(succ[0][0], conds, env, visiting | {bb})
         elif succ:
             raise TooComplex(k)
 
-    walk(0, [], None, frozenset())
+    walk(0, [], {}, frozenset())
     return rows
 
 
@@ -257,5 +282,45 @@ def variant_const_map(fn, prog):
         if len(conds) != 1 or val is None:
             raise TooComplex("not a single-level match returning constants")
         v = conds[0][1]
+        c = val.get("call")
+        if c is not None and c.name in ("as_bytes", "as_str", "as_ref") and c.args:
+            ca = fn.const_args(c)[0]
+            if ca is not None:
+                val = ca
         out[v] = val.get("s", val.get("v", val.get("desc")))
+    return out
+
+
+def add_terms(fn, op, depth=8):
+    """summands of a chain of (checked) additions, each as (described text, origin steps)"""
+    steps = fn.origin(op)
+    if not steps:
+        return []
+    last = steps[-1]
+    if depth > 0 and last[0] == "bin" and last[1][1] in ("Add", "AddWithOverflow", "AddUnchecked"):
+        return add_terms(fn, last[1][2], depth - 1) + add_terms(fn, last[1][3], depth - 1)
+    return [(describe_deep(fn, op, 4), steps)]
+
+
+def rvalue_agg(fn, r):
+    """the aggregate an rvalue denotes, directly or through single-definition temporaries -> agg rvalue or None"""
+    if r[0] == "agg":
+        return r
+    if r[0] == "use":
+        st = fn.origin(r[1])
+        if st and st[-1][0] == "agg":
+            return st[-1][1]
+    return None
+
+
+def field_stores(fn, field):
+    """(bb, stmt, agg-or-None) for assignments to a place whose last projection is the named field"""
+    out = []
+    for bi in sorted(fn.live_blocks()):
+        b = fn.blocks[bi]
+        if b["cleanup"]:
+            continue
+        for st in b["st"]:
+            if st["k"] == "=" and st["p"][1] and st["p"][1][-1][0] == "f" and st["p"][1][-1][2] == field:
+                out.append((bi, st, rvalue_agg(fn, st["r"])))
     return out
